@@ -59,6 +59,11 @@
   NOT proved here: soundness of the VALUE part of the eight typed kinds beyond reducing the line to the value parser
   (their value grammar is C09 / C10); Contact `*` inside a header line; general rejection results for typed values;
   chains whose first call starts inside a line.
+  SCOPE NOTES after the second sceptical review (AB1): the hypothesis `HsGeneric B o hb` of the `block_*_schedule` theorems
+  (with a values object) ranges over EVERY line start of the whole last buffer `B`, body and following messages included —
+  a typed name at a line start anywhere behind the block (`\nf: z` in a body) takes the input out of their scope;
+  `block_all_report_schedule_from` and `line_sound_reported_schedule_from` do not have that restriction. The schedule
+  theorems take a NEW header list (`hsNew kh`), not a reset one.
 -/
 import Sipsp.Proofs.HdrSpec
 import Sipsp.Proofs.HdrTyped
